@@ -61,6 +61,9 @@ def materialize(cls, defects, names):
         elif df == "negative_weight":
             u, v = list(G.edges())[1]
             G[u][v]["flow"] = -1
+        elif df in ("negative_first_weight", "negative_last_weight"):
+            u, v = list(G.edges())[0 if df == "negative_first_weight" else -1]
+            G[u][v]["flow"] = -1
         elif df == "missing_weight":
             u, v = list(G.edges())[2]
             del G[u][v]["flow"]
